@@ -111,6 +111,7 @@ class BaseOrganization(object, metaclass=abc.ABCMeta):
                     name=w["name"],
                     ID=w["ID"],
                     team_id=w["team_id"],
+                    main_workplace_id=w.get("main_workplace_id"),
                     cost_per_time=w["cost_per_time"],
                     solo_working=w["solo_working"],
                     workamount_skill_mean_map=w["workamount_skill_mean_map"],
